@@ -7,7 +7,7 @@
    implemented: C12_at_most_one_bundle_refuted.  Both witnesses are replayed on the implementation
    on every run and are recorded as a known finding.  Everything else is proved. *)
 From Coq Require Import List String NArith Bool.
-From DM Require Import Model.Diamond Proofs.DiamondProofs Proofs.DiamondSerial.
+From DM Require Import Model.Diamond Proofs.DiamondProofs Proofs.DiamondSerial Proofs.DiamondCollect.
 Import ListNotations.
 Open Scope list_scope.
 
@@ -80,3 +80,26 @@ Print Assumptions C12_bundle_sources_recorded.
 Theorem C12_bundles_stable : forall es st b, In b (d_bundles st) -> In b (d_bundles (run es st)).
 Proof. exact bundles_stable. Qed.
 Print Assumptions C12_bundles_stable.
+
+(* the bundle of a commit holds exactly what the commit collected, and that is exactly the set of runs
+   recorded as completing their split at the moment it collected: the collection step takes d_done as
+   it is, nothing changes the collection afterwards, and every bundle descriptor carries the
+   collection of the commit that wrote it *)
+Theorem C12_collect_exact : forall i st c w ds, i < List.length (d_actors st) ->
+  nth_error (d_actors st) i = Some (ACommit CCollect c w) -> d_done st = ds -> ds <> [] ->
+  nth_error (d_actors (fst (step i st))) i = Some (ACommit CWriteLists ds w) /\
+  d_done (fst (step i st)) = ds /\ d_bundles (fst (step i st)) = d_bundles st.
+Proof. exact collect_exact. Qed.
+Print Assumptions C12_collect_exact.
+
+Theorem C12_collection_frozen : forall es st i pc c w,
+  nth_error (d_actors st) i = Some (ACommit pc c w) -> past_collect pc = true ->
+  exists pc' w', nth_error (d_actors (run es st)) i = Some (ACommit pc' c w') /\ past_collect pc' = true.
+Proof. exact collection_frozen. Qed.
+Print Assumptions C12_collection_frozen.
+
+Theorem C12_bundle_is_the_collection : forall actors es b srcs,
+  In (b, srcs) (d_bundles (run es (init actors))) ->
+  exists pc w, nth_error (d_actors (run es (init actors))) b = Some (ACommit pc srcs w) /\ past_collect pc = true.
+Proof. exact bundle_is_the_collection. Qed.
+Print Assumptions C12_bundle_is_the_collection.
